@@ -329,7 +329,7 @@ def writeback(ctx, m):
         q = m.q(f)
         copies = []
         for l, defs in q.ev.def_sites().items():
-            ty = f.body.local_ty(l)
+            ty = q.body.local_ty(l)
             if ty.endswith("OrderEntry") and len(defs) == 1 and l in q.ev.memory_locals():
                 copies.append(l)
         ctx.check(len(copies) == 1, "writeback", api + "|copy", ctx.loc(f), "%s works on one local copy of the table entry" % api,
@@ -346,7 +346,7 @@ def writeback(ctx, m):
         # the slot written is the slot copied
         from analysis.origin import strip
         d = src_defs[0]
-        src = strip(q.ev.rvalue(f.body.blocks[d[1]].stmts[d[2]].rv, (d[1], d[2]))) if d[0] == "s" else None
+        src = strip(q.ev.rvalue(q.body.blocks[d[1]].stmts[d[2]].rv, (d[1], d[2]))) if d[0] == "s" else None
         a1 = [x for x in walk(src)] if src else []
         i1 = [x for x in a1 if x[0] == "call" and x[4] == "index"]
         i2 = [x for x in walk(wb.addr) if x[0] == "call" and x[4] == "index_mut"]
@@ -355,7 +355,7 @@ def writeback(ctx, m):
         # every path from a block that modifies the copy to a return passes the write-back
         summ = m.w.effects.summary(f)
         mods = {b for (loc, b, sp, what) in summ["sites"] if loc.root == ("local", l)}
-        rets = f.body.return_blocks()
+        rets = q.body.return_blocks()
         bad = [b for b in mods for r in rets if not q.cfg.all_paths_pass(b, r, [wb.b]) and r in q.cfg.reach_from(b)]
         ctx.check(not bad and mods, "writeback", api + "|all-paths", wb.loc(), "every path that modifies the copy (%d sites) reaches the store-back before returning" % len(mods),
                   "a path modifies the working copy and returns without storing it back (from bb%s)" % (bad[0] if bad else "?"))
@@ -516,18 +516,18 @@ def never_crossed(ctx, m, rule="never-crossed"):
                      and q.cfg.can_reach(x.b, c.b) and not contradicts(x.guards)]
             # edges taken when trading is off
             off_edges = []
-            for blk in f.body.blocks:
+            for blk in q.body.blocks:
                 t = blk.term
                 if blk.cleanup or not t or t.k != "switch":
                     continue
-                for s in set(f.body.succs(blk.i)):
+                for s in set(q.body.succs(blk.i)):
                     if contradicts(q.cfg.edge_atoms(blk.i, s)):
                         off_edges.append((blk.i, s))
-            for blk in f.body.blocks:
+            for blk in q.body.blocks:
                 t = blk.term
                 if blk.cleanup or not t or t.k != "switch":
                     continue
-                for s in set(f.body.succs(blk.i)):
+                for s in set(q.body.succs(blk.i)):
                     for a in q.cfg.edge_atoms(blk.i, s):
                         if a[0] == "bool" and a[2] is False and fld(a[1], m.f_trading):
                             off_edges.append((blk.i, s))
